@@ -217,19 +217,23 @@ theorem mem_lowerIndex_keys {names : List String} {n x : String} (hn : n ∈ nam
 
 /-! ### how leaves on locally stored columns read a row -/
 
-/-- the leaf is on a locally stored string column of table `t` that every backend has -/
+/-- the leaf is on a locally stored string column of table `t` that every backend has: neither the leaf's
+    copy of the optional flags (`opt`, consulted by `MatchFilter`) nor the column's own optional flags
+    (`copt`, consulted by the typed getters since the missing-optional-column repair) are set -/
 structure StrLeaf (t : Table) (l : Leaf) : Prop where
   col : t.col? l.col.name = some l.col
   loc : l.col.storage = .loc
   str : l.col.dtype = .str
   opt : l.colOptional = 0
+  copt : l.col.optional = 0
 
-/-- a well-typed string leaf is evaluated on the string `Row.str` yields for its column -/
+/-- a well-typed string leaf on a non-optional column is evaluated on the string `Row.str` yields for its column -/
 theorem matchLeaf_strLeaf (q : Quirks) (cx : Ctx) (t : Table) (r : Row) (l : Leaf) (h : StrLeaf t l) :
     matchLeaf q (mkView cx t r) l = matchString l (r.str t l.col.name) := by
-  simp [matchLeaf, h.opt, matchLeafCore, h.str, mkView, getVal, h.loc, Row.str, h.col]
+  simp [matchLeaf, h.opt, h.copt, matchLeafCore, h.str, mkView, getVal, h.loc, Row.str, h.col]
 
-/-- the leaf is on a string-list column that every backend has and whose getter yields `gs` for the row -/
+/-- the leaf is on a string-list column that every backend has and whose getter yields `gs` for the row
+    (`val` is about the getter itself, so it already accounts for the column's own optional flags) -/
 structure ListLeaf (cx : Ctx) (t : Table) (r : Row) (l : Leaf) (gs : List String) : Prop where
   ty : l.col.dtype = .strList
   opt : l.colOptional = 0
@@ -240,14 +244,17 @@ theorem matchLeaf_listLeaf (q : Quirks) (cx : Ctx) (t : Table) (r : Row) (l : Le
     (h : ListLeaf cx t r l gs) : matchLeaf q (mkView cx t r) l = matchStringList l gs := by
   simp [matchLeaf, h.opt, matchLeafCore, h.ty, mkView, h.val]
 
-/-- a locally stored string-list column (not a lower-case shadow) reads as `Row.strList`, whatever the cell holds -/
+/-- a locally stored, non-optional string-list column (not a lower-case shadow) reads as `Row.strList`,
+    whatever the cell holds -/
 theorem listLeaf_of_local (cx : Ctx) (t : Table) (r : Row) (l : Leaf)
     (hloc : l.col.storage = .loc) (hty : l.col.dtype = .strList) (hopt : l.colOptional = 0)
+    (hcopt : l.col.optional = 0)
     (hlc : hasSuffix l.col.name "_lc" = false)
     (hcell : ∀ v, r.cell? l.col.name = some v → ∃ gs, v = .sl gs) :
     ListLeaf cx t r l (r.strList l.col.name) := by
   refine ⟨hty, hopt, ?_⟩
-  simp only [getVal, hloc, localVal, hlc, Bool.false_eq_true, if_false, Row.strList, hty]
+  simp only [getVal, hcopt, bne_self_eq_false, Bool.false_and, hloc, localVal, hlc, Bool.false_eq_true,
+    if_false, Row.strList, hty]
   cases hc : r.cell? l.col.name with
   | none => simp [DataType.zero]
   | some v =>
@@ -596,8 +603,10 @@ theorem preFiltered_complete_of_leafSound (q : Quirks) (cx : Ctx) (t : Table) (r
 
 /-- Every leaf shape `leafIndexKeys` can use, each with the typing and data assumptions under which its
     keys are proved to contain the row's key:
-    * string leaves must sit on the table's own locally stored, non-optional string column (`StrLeaf`);
-    * list leaves must sit on a non-optional string-list column whose getter yields `gs` (`ListLeaf`);
+    * string leaves must sit on the table's own locally stored string column that is not optional, neither
+      in the leaf's copy of the flags nor in the column itself (`StrLeaf`, fields `opt` and `copt`);
+    * list leaves must sit on a string-list column with no optional flags in the leaf's copy and whose
+      getter yields `gs` on this backend (`ListLeaf`);
     * case-insensitive and pattern look-ups need the row's host to be one of the indexed host names;
     * `_lc` columns must hold the lower-case form of their base column;
     * group look-ups need the group tables to list the row (`HostInGroups` / `SvcInGroups`) and group
